@@ -106,7 +106,7 @@ let str_ferr = function
   | InvalidFrame -> "ER INVALID"
   | DataMismatch (e, a) -> Printf.sprintf "ER MISMATCH %s %s" (pn e) (pn a)
   | BadChecksum (e, a) -> Printf.sprintf "ER BADCK %s %s" (pn e) (pn a)
-  | DataTooLong a -> "ER TOOLONG " ^ pn a
+  | DataTooLong _ -> "ER TOOLONG"
   | FPanic -> "PANIC"
 
 (* ---------- pages ---------- *)
@@ -273,7 +273,7 @@ let handle_io (toks : string list) : string =
          ^ (if List.exists (fun x -> x <> "S30-after-write" && x <> "S100-after-read") pl then " other" else "")
        end else
          Printf.sprintf "%s | %s | %s"
-           (match res with Ok r -> "OK " ^ str_omsg r | Err e -> str_rerr e)
+           (match res with Ok r -> "OK " ^ str_omsg r | Err _ -> "ER")
            (hex_of_bytes p'.pt_out.w_out) (hex_of_bytes p'.pt_in.r_content))
   | "OD" :: k :: rest ->
     let (signs, rest) = parse_signs (int_of_string k) rest in
@@ -297,7 +297,7 @@ let handle_io (toks : string list) : string =
         | Some (((res, p'), b'), fwd) ->
           p := p'; b := b';
           let fw = match fwd with None -> "-" | Some m -> str_msg m in
-          outs := ((match res with Ok _ -> "OK" | Err (OComm e) -> "COMM " ^ str_rerr e | Err OPanic -> "PANIC") ^ " fwd=" ^ fw) :: !outs
+          outs := ((match res with Ok _ -> "OK" | Err (OComm _) -> "COMM" | Err OPanic -> "PANIC") ^ " fwd=" ^ fw) :: !outs
       done;
       Printf.sprintf "%s | %s | %s | %s" (String.concat " ; " (List.rev !outs))
         (hex_of_bytes !p.pt_out.w_out) (hex_of_bytes !p.pt_in.r_content)
@@ -386,7 +386,7 @@ let handle (line : string) : string =
   | ["ST"; s] ->
     (match st_from_bytes (bytes_of_hex s) with
      | Ok t -> Printf.sprintf "OK %d" (st_index t)
-     | Err (WrongConfigLength (e, a)) -> Printf.sprintf "ER LEN %s %s" (pn e) (pn a)
+     | Err (WrongConfigLength (_, _)) -> "ER LEN"
      | Err UnknownConfig -> "ER UNKNOWN"
      | Err STPanic -> "PANIC")
   | ["STT"; i] ->
@@ -398,7 +398,7 @@ let handle (line : string) : string =
     let bs = pb_bytes (int_of_string len) (int_of_string seed) in
     (match page_from_bytes (num w) (num h) bs with
      | Ok p -> "OK " ^ hex_of_bytes p.p_bytes
-     | Err (WrongPageLength (w, h, e, a)) -> Printf.sprintf "ER LEN %s %s %s %s" (pn w) (pn h) (pn e) (pn a))
+     | Err (WrongPageLength (_, _, _, _)) -> "ER LEN")
   | "PG" :: w :: h :: src :: ops ->
     let w = num w and h = num h in
     let start = match String.split_on_char '.' src with
